@@ -220,11 +220,13 @@ static struct cstl_hash T;
 static int bad_on, bad_scope;           /* scope 0: every key, 1: only bad_key */
 static size_t bad_key, bad_delta;       /* returns m + delta (delta == SIZE_MAX: returns SIZE_MAX) */
 static int bad_returned;
+static int bad_nth, bad_seen;           /* bad_nth > 0: only the bad_nth-th matching consultation since bad_on returns the bad value
+                                         * (a function that is in range on one call and out of range on the next for the same key) */
 #define BAD_HI32 ((size_t)-2)   /* 2^32 + an in-range value: survives only if the result is narrowed to 32 bits */
 #define BAD_HI63 ((size_t)-3)   /* 2^63 + an in-range value: survives only if the result is treated as signed / narrowed */
 static size_t badf(size_t k, size_t m)
 {
-    if (bad_on && (bad_scope == 0 || k == bad_key)) {
+    if (bad_on && (bad_scope == 0 || k == bad_key) && (bad_nth == 0 || ++bad_seen == bad_nth)) {
         bad_returned++;
         if (bad_delta == BAD_HI32) return ((size_t)1 << 32) + k % m;
         if (bad_delta == BAD_HI63) return ((size_t)1 << 63) + k % m;
@@ -240,10 +242,10 @@ static const char *ename[] = { "insert", "find", "erase" };
 static const char *sname[] = { "idle", "pending-bad-is-current", "pending-bad-is-pending" };
 
 /* cell index -> parameters */
-struct cell { int entry, state, ret, scope, grow, n; };
+struct cell { int entry, state, ret, scope, grow, n, nth; };
 #define NCELL_N 4
 static const int cell_n[NCELL_N] = { 1, 2, 4, 7 };
-static uint64_t ncells(void) { return 3 * 3 * 5 * 3 * 2 * NCELL_N; }
+static uint64_t ncells(void) { return 3 * 3 * 5 * 3 * 2 * NCELL_N * 4; }
 static void decode_cell(uint64_t i, struct cell *c)
 {
     c->entry = i % 3; i /= 3;
@@ -251,7 +253,8 @@ static void decode_cell(uint64_t i, struct cell *c)
     c->ret = i % 5; i /= 5;
     c->scope = i % 3; i /= 3;          /* 0 all keys, 1 the call's key, 2 another element's key */
     c->grow = i % 2; i /= 2;
-    c->n = cell_n[i % NCELL_N];
+    c->n = cell_n[i % NCELL_N]; i /= NCELL_N;
+    c->nth = i % 4;                      /* 0: every consultation is bad; 1..3: only that one */
 }
 
 static void run_cell(uint64_t idx)
@@ -262,9 +265,10 @@ static void run_cell(uint64_t idx)
     char nm[96];
     decode_cell(idx, &c);
     n2 = c.grow ? (size_t)c.n + 3 : (c.n > 1 ? (size_t)c.n - 1 : 2);
-    vrt_case_note("B cell: %s, %s, bad value %s, bad for %s, n=%d -> %zu",
+    vrt_case_note("B cell: %s, %s, bad value %s, bad for %s (%s), n=%d -> %zu",
                   ename[c.entry], sname[c.state], c.ret == 0 ? "m" : c.ret == 1 ? "m+1" : c.ret == 2 ? "SIZE_MAX" : c.ret == 3 ? "2^32+in-range" : "2^63+in-range",
-                  c.scope == 0 ? "every key" : c.scope == 1 ? "the call's key" : "another element's key", c.n, n2);
+                  c.scope == 0 ? "every key" : c.scope == 1 ? "the call's key" : "another element's key",
+                  c.nth == 0 ? "on every consultation" : c.nth == 1 ? "only on the 1st consultation in the call" : c.nth == 2 ? "only on the 2nd" : "only on the 3rd", c.n, n2);
     for (i = 0; i < NE; i++) {
         el[i] = vrt_alloc(sizeof(*el[i]));
         memset(el[i], 0x5e, sizeof(*el[i]));
@@ -293,6 +297,7 @@ static void run_cell(uint64_t idx)
     bad_scope = c.scope != 0;
     bad_key = c.scope == 2 ? otherkey : callkey;
     if (c.entry == E_INSERT) callkey = 9, bad_key = c.scope == 2 ? otherkey : callkey;
+    bad_nth = c.nth; bad_seen = 0;
     bad_on = 1;
     vrt_state(sname[c.state]);
     switch (c.entry) {
@@ -321,6 +326,7 @@ static void run_cell(uint64_t idx)
         }
         VRT_COUNT("B.cells.aborted-as-required");
         if (c.scope == 2) VRT_COUNT("B.cells.bad-value-on-relocation-path");
+        if (c.nth >= 2) VRT_COUNT("B.cells.bad-value-only-on-a-later-consultation");
         vrt_sig(0, vrt_mix(0xB0, idx));
     } else {
         if (aborted) {
